@@ -185,6 +185,49 @@ def run(tier="quick", seed=0, arg=None):
         _roundtrip(s, {"expr": txt}, fail, probe)
         if len(samples) < 3 and i % 100 == 1:
             samples.append({"expr": txt, "result": _safe_str(s)})
+    # ---- C04, exhaustive on a small universe: every pair of clause sets over three bounds with every inclusivity, both operators, both operand
+    # orders, against packaging on the finals around those bounds (coincidences of bounds are the rule here, not the exception)
+    small = []
+    B3 = ["1.0", "1.5", "2.0"]
+    for i, lo in enumerate(B3):
+        small += [f">{lo}", f">={lo}", f"<{lo}", f"<={lo}", f"=={lo}", f"!={lo}"]
+        for hi in B3[i + 1:]:
+            small += [f">{lo},<{hi}", f">={lo},<{hi}", f">{lo},<={hi}", f">={lo},<={hi}"]
+    small += ["!=1.5,<=2.0", "!=1.0,!=2.0", "~=1.0", "==1.*"]
+    pts = [Version(x) for x in ("0.5", "1.0", "1.2", "1.5", "1.7", "2.0", "2.5")]
+    sm = [(t, P(t), SpecifierSet(t)) for t in small]
+    for ta, a, sa in sm:
+        for tb, b, sb in sm:
+            for tag, fn, comb in (("&", lambda: a & b, lambda x, y: x and y), ("|", lambda: a | b, lambda x, y: x or y)):
+                evals += 1
+                try:
+                    r = fn()
+                except Exception as e:  # noqa: BLE001
+                    fail("C04.tree-raises", {"expr": f"({ta}) {tag} ({tb})"}, repr(e), "no exception")
+                    continue
+                for v in pts:
+                    exp = comb(sa.contains(v, prereleases=True), sb.contains(v, prereleases=True))
+                    if O.den(r, v) != exp:
+                        fail("C04.tree", {"expr": f"({ta}) {tag} ({tb})", "version": str(v)}, O.den(r, v), exp)
+                        break
+    # ---- C17 / C04: an `===V` clause (V a valid version) next to ranges, incl. ranges whose bounds sit in adjacent epochs: the set parses
+    # (the arbitrary-equality clause tests membership of V through the range's own text) and admits V exactly when the other clauses do
+    for rt in [">=1,<1!0", ">=1!3,<2!0.0", ">=1.0,<2.0", ">=1,<2", "<=1!0", ">=0.5"]:
+        for vt in ["1", "1.0", "1!3", "1.5"]:
+            for text in (f"{rt},==={vt}", f"==={vt},{rt}"):
+                evals += 1
+                try:
+                    ref = SpecifierSet(text)
+                except Exception:  # noqa: BLE001
+                    continue
+                try:
+                    got = P(text)
+                except InvalidSpecifier as e:
+                    fail("C17.rejects-valid", {"text": text}, repr(e), "parses")
+                    continue
+                except Exception as e:  # noqa: BLE001
+                    fail("C17.wrong-exception", {"text": text}, repr(e), "parses")
+                    continue
     # ---- === leaves: correct set or ValueError
     for a_t in ["===1.0", "===abc", "===1.0.post1"]:
         a = P(a_t)
